@@ -341,8 +341,11 @@ def check_c17_serial(w):
         oc = t['outcome']
         if oc is None or oc[0] != 'exc' or user_overrode(t) or t['cancel'] is not None:
             continue
+        # (faults of a retryable kind are survived by the download loop: they are
+        # not failures of the transfer)
         fired = [f for f in fired_for(w, t) if f['exc'] is not None and
-                 f['spec']['site'] in ('s3', 'src', 'fs', 'dst')]
+                 f['spec']['site'] in ('s3', 'src', 'fs', 'dst') and
+                 f['spec'].get('exc') not in RETRYABLE_KINDS + ('brokenpipe', 'blockingio')]
         if len(fired) >= 2 and any(oc[1] is f['exc'] for f in fired[1:]) and \
                 oc[1] is not fired[0]['exc']:
             w.violation('C17', 'first-failure-overwritten',
@@ -929,12 +932,43 @@ def check_c13_e2e(w):
 
 
 def check_c11_end(w):
-    pass
+    """'... buffers, each no larger than max(multipart_chunksize,
+    multipart_threshold)': the part bodies of an upload from a stream are memory
+    buffers; none may be larger than the chunk size the documented adjustment
+    rule yields for this size (doubling only while the part count would exceed
+    the limit, then clamped), or the threshold."""
+    import math
+    cfg = w.config
+    if not cfg:
+        return
+    adj = w.knobs.get('adjuster') or {'max_parts': 10000, 'min_size': 5 * 1024 * 1024,
+                                      'max_size': 5 * 1024 ** 3}
+    for t in w.transfers:
+        spec = t['spec']
+        if t['type'] != 'upload' or spec.get('src') not in ('seekable', 'nonseekable'):
+            continue
+        size = spec.get('size', 0)
+        known = spec['src'] == 'seekable' or any(
+            (getattr(s_, 'spec', None) or {}).get('provide_size') is not None for s_ in t['subs'])
+        cs = cfg['multipart_chunksize']
+        if known and size:
+            while math.ceil(size / float(cs)) > adj['max_parts']:
+                cs *= 2
+        cs = min(max(cs, adj['min_size']), adj['max_size'])
+        limit = max(cs, cfg['multipart_threshold'])
+        for r in recs_of(w, t):
+            if r['op'] == 'upload_part' and (r.get('size') or 0) > limit:
+                w.violation('C11', 'buffer-too-large',
+                            't%d: the body of part %s holds %d bytes in memory; chunk size %d '
+                            '(adjusted for %s bytes), threshold %d'
+                            % (t['idx'], r.get('PartNumber'), r['size'], cs,
+                               size if known else 'unknown', cfg['multipart_threshold']))
+                break
 
 
 ALL = [check_kernel, check_effects, check_c03, check_c05, check_c06_end,
        check_c07, check_c08, check_c09, check_c10_end, check_c12_quiescence,
-       check_c18, check_c13_e2e, check_c17_serial]
+       check_c18, check_c13_e2e, check_c17_serial, check_c11_end]
 
 
 def evaluate(w):
